@@ -14,11 +14,12 @@ class FakeRouter:
         self.sent.append(msg)
 
 
-def make_driver(rule, init, rname="SW"):
+def make_driver(rule, init, rname="SW", hidden=None):
     from indi.device import Driver
     from indi.device.properties import Group, Switch, SwitchVector
     _n[0] += 1
-    elems = {"s%d" % i: Switch("S%d" % i, default="On" if v else "Off") for i, v in enumerate(init)}
+    hidden = hidden or [False] * len(init)
+    elems = {"s%d" % i: Switch("S%d" % i, default="On" if v else "Off", enabled=not hidden[i]) for i, v in enumerate(init)}
     vec = SwitchVector("SWV", rule=rule, elements=elems)
     cls = type("SwDrv%d" % _n[0], (Driver,), {"name": rname, "main": Group("MAIN", vectors={"swv": vec})})
     router = FakeRouter()
@@ -33,11 +34,23 @@ def state(drv):
 def run_case(c):
     from indi.message import NewSwitchVector, SetSwitchVector
     from indi.message.one_parts import OneSwitch
-    drv, router = make_driver(c["rule"], c["init"])
+    hidden = c.get("hidden")
+    drv, router = make_driver(c["rule"], c["init"], hidden=hidden)
     vec = drv.main.swv
+    snaps = []
+    if hidden:
+        # with hidden switches an update lists the visible ones only: keep the whole state at the moment of each publication too
+        plain = router.process_message
+
+        def recording(msg, sender=None):
+            plain(msg, sender=sender)
+            if isinstance(msg, SetSwitchVector):
+                snaps.append(state(drv))
+        router.process_message = recording
     per_op = []
     for op in c["ops"]:
         del router.sent[:]
+        del snaps[:]
         raised = None
         try:
             if op[0] == "assign":
@@ -61,5 +74,9 @@ def run_case(c):
         for m in router.sent:
             if isinstance(m, SetSwitchVector):
                 pubs.append([ch.value == "On" for ch in m.children])
-        per_op.append({"state": state(drv), "pubs": pubs, "raised": raised})
+        if hidden:
+            shown = [[x for x, h in zip(sn, hidden) if not h] for sn in snaps]
+            per_op.append({"state": state(drv), "pubs": list(snaps), "raised": raised, "listed_ok": shown == pubs, "listed": pubs})
+        else:
+            per_op.append({"state": state(drv), "pubs": pubs, "raised": raised})
     return {"status": "ok", "ops": per_op}
